@@ -700,7 +700,7 @@ func (e *Engine) runPegHarness(inputs []string) (*pegHarnessResult, error) {
 			defer wg.Done()
 			c := exec.Command(bin, "-test.v", "-test.timeout", "300s", "-test.run", "TestDsvcPegWitness$")
 			c.Dir = RepoDir
-			c.Env = append(env, "DSVC_PEG_CANDS="+pf)
+			c.Env = append(append([]string{}, env...), "DSVC_PEG_CANDS="+pf) // private copy: appending to the shared slice races
 			o, _ := c.CombinedOutput()
 			outs[k] = string(o)
 		}(k)
